@@ -204,10 +204,15 @@ func Harness_C04_HandlerStall() {
 	b.send(&wamp.Register{Request: 1, Procedure: "b.proc"})
 	b.send(&wamp.Subscribe{Request: 2, Topic: "b.topic"})
 	b.drain()
+	c.send(&wamp.Subscribe{Request: 2, Topic: "b.", Options: wamp.Dict{"match": "prefix"}})
+	c.drain()
 	req := vChoice("request", 3)
 	k := vChoice("stall-after", 9)
 	ev := vChoice("event", 5)
-	vStallFunc("handleInboundMessages", k)
+	// the descheduled goroutine: a session's message handler, or the broker /
+	// dealer worker in the middle of routing
+	fn := []string{"handleInboundMessages", "syncPublish", "syncCall"}[vChoice("stalled-function", 3)]
+	vStallFunc(fn, k)
 	sent := make(chan struct{})
 	go func() {
 		defer close(sent)
